@@ -18,7 +18,8 @@ THEOREMS = ["Pypika.C14.join_guard_iff", "Pypika.C14.join_accepts_known", "Pypik
             # CREATE TABLE builder state machine (DDLBuilder.lean, tied call by call through harness/trace.py)
             "Pypika.DDLB.create_table_once", "Pypika.DDLB.primary_key_once", "Pypika.DDLB.foreign_key_once", "Pypika.DDLB.columns_after_as_select", "Pypika.DDLB.as_select_after_columns", "Pypika.DDLB.vertica_local_needs_temporary", "Pypika.DDLB.vertica_preserve_needs_temporary",
             # term-level builders (Builder.lean stepT, tied call by call through harness/trace.py)
-            "Pypika.B.frame_once"]
+            "Pypika.B.frame_once",
+            "Pypika.B.returning_no_fields_ok", "Pypika.B.returning_needs_dml", "Pypika.B.returning_target_ok", "Pypika.B.returning_rejects_cleanly"]
 AGREE = []
 TRUSTED = ["the scenario table below as the reading of 'documented situation' for each guard"]
 RULE = ("for every guard a family of scenarios generated on BOTH sides of the condition (rejecting inputs and their accepting "
